@@ -215,6 +215,13 @@ func (c *EvalCtx) evalCall(x *SCall) (TV, error) {
 			return TV{}, fmt.Errorf("fresh() needs a pre-state")
 		}
 		return TV{Val: And(Val{app("<=", c.old.next.T, r.T), SBool}, Val{app("<", r.T, c.st.next.T), SBool}), Ty: boolT}, nil
+	case "allocated":
+		// the referenced object exists in this state (a type invariant of every stored reference)
+		r, err := c.evalCall(&SCall{Fun: &SIdent{"ref"}, Args: x.Args})
+		if err != nil {
+			return TV{}, err
+		}
+		return TV{Val: And(Val{app("<=", "0", r.T), SBool}, Val{app("<", r.T, c.st.next.T), SBool}), Ty: boolT}, nil
 	case "loc":
 		l, t, err := c.evalAddr(x.Args[0])
 		if err != nil {
